@@ -41,14 +41,14 @@ Definition snap_ok (s : store) (e : kid * option (list N)) : bool :=
 Definition obs := (list ccall * kout * list (kid * option (list N)))%type.
 
 Inductive case :=
-| CHist (ops : list (kop * option nat)) (o : list obs)
+| CHist (ops : list (kop * option intr)) (o : list obs)
   (* the id the KMS gave a key of type kt with coordinates xs/ys is base64url(SHA-256(pre)) — checked in Go *)
 | CKid (kt : ktype) (xs ys pre : string)
   (* did:key built for an exported key of type kt: multicodec, encoding found under it, and whether the readers
      (vdr/key, kidresolver) recovered the key and re-derived the KMS id *)
 | CDid (kt : ktype) (codec : N) (e : enc) (readable : bool).
 
-Fixpoint check_from (st : kstate) (ops : list (kop * option nat)) (o : list obs) : bool :=
+Fixpoint check_from (st : kstate) (ops : list (kop * option intr)) (o : list obs) : bool :=
   match ops, o with
   | [], [] => true
   | oc :: r, (calls, out, snap) :: t =>
